@@ -39,7 +39,10 @@ def gen_item(rng):
         names = list(dict.fromkeys(names))
     annotate = rng.random() < 0.5
     ann = {n: (f'{n}-({rng.randrange(1, 99)}; {rng.randrange(0, 101)})' if annotate else n) for n in names + [label]}
+    heuristic = rng.choice(['MI-numba-randomized', 'MI', 'surrogate-SGD', 'max-value-coverage', 'AMI', 'MI-numba-3mr'])
     vals = rng.choice([list(range(-6, 7)), [0, 1, 2, 3], [5], list(range(-400, 401, 7))])
+    if 'MI' in heuristic and rng.random() < 0.25:
+        vals = [250000, 250001, 250002, 250004]          # distinct medians that are relatively close (the normalisation only uses their differences)
     table = []
     for n in names:
         for _ in range(rng.choice([1, 1, 2, 3, 4])):
@@ -57,7 +60,6 @@ def gen_item(rng):
             a, b = rng.sample(names, 2)
             table.append([ann[a], ann[b], rng.choice(vals)])
     rng.shuffle(table)
-    heuristic = rng.choice(['MI-numba-randomized', 'MI', 'surrogate-SGD', 'max-value-coverage', 'AMI', 'MI-numba-3mr'])
     return {'label': label, 'heuristic': heuristic, 'order': order, 'table': table}
 
 
@@ -174,7 +176,7 @@ def main():
                 # all medians equal under an MI heuristic: 0/0 - outside the statement ("best 1, worst 0" needs max > min)
                 meds = {}
                 continue_ok = True
-            if 'MI' in it['heuristic'] and any(v == v and not (-1e-9 <= v <= 1 + 1e-9) for _, v in ob['singles']):
+            if 'MI' in it['heuristic'] and len({v for _, v in ob['singles'] if v == v}) > 1 and any(v == v and not (-1e-9 <= v <= 1 + 1e-9) for _, v in ob['singles']):       # (all written scores equal: all medians tie, normalisation undefined, not judged)
                 # (judged here, before the trace: the exact arithmetic of TraceSummary is sized for normalised scores)
                 V.violation('scores:' + key, f'heuristic {it["heuristic"]!r} is an MI-type name, but the written scores are not normalised to [0, 1]: {ob["singles"][:4]}', it)
                 continue
